@@ -1606,8 +1606,13 @@ def compile_try_expression(compiler, expr, root, body, catchers, orelse, finalbo
         # With a `finally` clause, don't let `Result.rename` replace
         # the temporary with an assignment target: the `finally` forms
         # run after the temporary is set and must still see (and may
-        # set) the target's own value.
-        temp_variables=[] if finalbody else [expr_name, return_var],
+        # set) the target's own value. Likewise for `except*`, where
+        # the unmatched rest of an exception group is re-raised after
+        # a handler has set the temporary.
+        temp_variables=(
+            []
+            if finalbody or "except*" in except_syms_seen
+            else [expr_name, return_var]),
     )
     body += (
         body.expr_as_stmt()
